@@ -111,7 +111,8 @@ func (p *parser) parseInfix(left ast.Expr, rbp oper.BP) ast.Expr {
 	for p.infixLbp(p.peek()) > rbp {
 		t := p.eat()
 		inf := p.mustInfix(t)
-		left = inf.led(p, inf.BP, left, t)
+		// 每构造一个节点就检查, 否则 a == b == c || d 中的链式 == 会被外层的 || 掩盖
+		left = p.infixNCheck(inf.led(p, inf.BP, left, t))
 	}
 	return p.infixNCheck(left)
 }
